@@ -31,6 +31,8 @@ def toplevel_names(tree):
     return out
 
 
+ATTR_SHAPES = {'_bottom_joints_space': (3, 6), '_top_joints_space': (3, 6), '_bottom_joints_local': (3, 6), '_top_joints_local': (3, 6),
+               'lengths': (6, 1)}
 N_RULE_HELPERS = {'Norm', 'SafeTrace', 'SafeCopy', 'SafeDot', 'MatMul', 'SafeClip'}
 _REF = {}
 
@@ -132,6 +134,21 @@ def _normalizer(model, pm, node, name, prune=True):
     gl = toplevel_names(pm.tree)
     nz = Normalizer(node, SHAPES, known, None, True, gl)
     nz.prune_loops = prune
+    nz.attr_shapes = dict(ATTR_SHAPES)
+    # module aliases of the kernel modules used by the Python layers (import ... as fmr / mr): alias.f(x) is f(x)
+    kernel_mods = {PORT_MOD, 'basic_robotics.general.faser_high_performance'}
+    for alias, target in getattr(pm, 'imports', {}).items():
+        # ('module', dotted) | ('from', dotted_module, name): `from pkg import mod as alias` names a module too
+        last = (target[1] if target[0] == 'module' else target[2]).split('.')[-1]
+        hit = last in ('fmr', 'mr', 'faser_high_performance', 'modern_high_performance')
+        if hit:
+            nz.module_aliases.add(alias)
+            for km in kernel_mods:
+                if km in model.modules:
+                    known |= set(toplevel_funcs(model.modules[km].tree))
+                    for k_, v_ in toplevel_funcs(model.modules[km].tree).items():
+                        allf.setdefault(k_, v_)
+    nz.module_funcs = set(known)
     priv = port_private(allf.keys())
     if priv:
         nz.inliner = Inlining(allf, SHAPES, known, True, gl, lambda n_: n_ in priv and n_ != name)
@@ -301,8 +318,10 @@ def func_nf(model, fi, prune=True):
     return t, nz
 
 
-def fi_matches_spec(model, fi, spec_src, prune=True):
-    """As matches_spec, for any function or method (the spec names `self` like the method does)."""
+def fi_matches_spec(model, fi, spec_src, prune=True, cell_shape=None):
+    """As matches_spec, for any function or method (the spec names `self` like the method does).  With `cell_shape`, a returned
+    array of that constant shape is compared element by element when the two normal forms assemble it differently
+    (row-wise vs column-wise fills, hstack vs slice stores); the effect terms must still be identical."""
     t, nz = func_nf(model, fi, prune)
     pm = fi.module
     funcs = toplevel_funcs(pm.tree)
@@ -323,8 +342,80 @@ def fi_matches_spec(model, fi, spec_src, prune=True):
     if s == t:
         return True, 'equal'
     from .normal import first_diff, show
+    if cell_shape is not None and s[1] == t[1]:
+        eq, idx, ca, cb = cells_equal(nz, t[2], sz, s[2], cell_shape)
+        if eq:
+            return True, 'equal element by element'
+        return False, 'element %s: repo %s  |  spec %s' % (idx, show(ca)[:130] if ca is not None else '?', show(cb)[:130] if cb is not None else '?')
     d = first_diff(t, s)
     if d is None:
         return False, 'normal forms differ'
     path, a, b = d
     return False, 'repo: %s  |  spec: %s' % (show(a)[:150], show(b)[:150])
+
+
+def cell_of(nz, term, idx):
+    """Normal form of element `idx` (tuple of ints) of an array-valued term, looking through the ways an array can be assembled
+    (block regions, transposition, hstack / concatenate of 1-D parts).  None when the element cannot be named."""
+    from .normal import is_num, num
+    if not isinstance(term, tuple) or not term:
+        return None
+    k = term[0]
+    if k == 'T' and len(idx) == 2:
+        return cell_of(nz, term[1], (idx[1], idx[0]))
+    if k == 'block':
+        shape = term[1]
+        r = idx[0]
+        c = idx[1] if len(idx) == 2 else 0
+        if len(idx) != len(shape):
+            return None
+        for (r0, r1, c0, c1, t) in term[2]:
+            if r0 <= r < r1 and c0 <= c < c1:
+                if r1 - r0 == 1 and c1 - c0 == 1:
+                    sh = nz.shape(t)
+                    if sh in ((), None) or sh == (1,) or sh == (1, 1):
+                        return t if sh in ((), None) else cell_of(nz, t, (0,) * len(sh))
+                sh = nz.shape(t)
+                if sh == ():
+                    return t                                   # a scalar broadcast over the region
+                if sh is not None and len(sh) == 1:
+                    if c1 - c0 == 1 or len(shape) == 1:
+                        return cell_of(nz, t, (r - r0,))
+                    if r1 - r0 == 1:
+                        return cell_of(nz, t, (c - c0,))
+                    return cell_of(nz, t, (c - c0,))          # 1-D value broadcast along rows
+                if sh is not None and len(sh) == 2:
+                    return cell_of(nz, t, (r - r0, c - c0))
+                return None
+        return None
+    if k == 'call' and term[1] in ('numpy.hstack', 'numpy.concatenate') and len(term[2]) >= 1 and term[2][0][0] in ('tuple', 'list') and len(idx) == 1:
+        off = 0
+        for part in term[2][0][1]:
+            sh = nz.shape(part)
+            if sh is None or len(sh) != 1 or not isinstance(sh[0], int):
+                return None
+            if off <= idx[0] < off + sh[0]:
+                return cell_of(nz, part, (idx[0] - off,))
+            off += sh[0]
+        return None
+    sh = nz.shape(term)
+    if sh is None:
+        return None
+    if sh == ():
+        return term
+    if len(sh) == len(idx):
+        try:
+            return nz.index(term, tuple(num(i) for i in idx))
+        except Exception:  # noqa
+            return ('idx', term, tuple(num(i) for i in idx))
+    return None
+
+
+def cells_equal(nz_a, a, nz_b, b, shape):
+    """element-wise equality of two array-valued normal forms of the given constant shape; -> (equal, first differing index or None)"""
+    import itertools as _it
+    for idx in _it.product(*[range(n) for n in shape]):
+        ca, cb = cell_of(nz_a, a, idx), cell_of(nz_b, b, idx)
+        if ca is None or cb is None or ca != cb:
+            return False, idx, ca, cb
+    return True, None, None, None
